@@ -746,7 +746,7 @@ func replay(file, out string) {
 	}
 	sb.WriteString("Definition script_cases : list c06_case := " + vh.List(names) + ".\n")
 	vh.WriteFile(out, "cases_0.v", vocabDefs()+sb.String())
-	vh.WriteFile(out, "pairs.v", "Definition pair_cases : list pair_case := "+pairs+".\n")
+	vh.WriteFile(out, "pairs_0.v", "Definition pair_cases : list pair_case := "+pairs+".\n")
 }
 
 // ---------------------------------------------------------------------------
@@ -916,7 +916,16 @@ func main() {
 	for _, c := range pairs {
 		items = append(items, fmt.Sprintf("(%s, %s, %s)", vh.Str(c.A1), vh.Str(c.A2), vh.Option(c.Panic == "", vh.Str(c.Obs))))
 	}
-	vh.WriteFile(*out, "pairs.v", "Definition pair_cases : list pair_case := "+vh.ListNL(items)+".\n")
+	const pairShard = 4000 // a longer list literal overflows coqc's stack
+	npairShards := 0
+	for lo := 0; lo < len(items); lo += pairShard {
+		hi := lo + pairShard
+		if hi > len(items) {
+			hi = len(items)
+		}
+		vh.WriteFile(*out, fmt.Sprintf("pairs_%d.v", npairShards), "Definition pair_cases : list pair_case := "+vh.ListNL(items[lo:hi])+".\n")
+		npairShards++
+	}
 	nshards := 0
 	var shardTexts []string
 	for lo := 0; lo < len(scripts); lo += *shardSize {
@@ -944,7 +953,7 @@ func main() {
 		js = append(js, jcase{sc.Stream, sc.Cast, sc.Clauses, fullText(sc), sc.TempoNs, sc.Res.FullErr, sc.Res.FullPanic,
 			sc.Res.StoryLine, sc.PrintErr})
 	}
-	vh.WriteJSON(*out, "cases.json", map[string]interface{}{"pairs": pairs, "scripts": js, "shard": *shardSize})
+	vh.WriteJSON(*out, "cases.json", map[string]interface{}{"pairs": pairs, "scripts": js, "shard": *shardSize, "pair_shard": pairShard})
 
 	// ---- summary
 	streams := map[string]int{}
@@ -1023,7 +1032,7 @@ func main() {
 	}
 	sort.Strings(sn)
 	vh.WriteJSON(*out, "summary.json", map[string]interface{}{
-		"pairs": len(pairs), "scripts": len(scripts), "shards": nshards,
+		"pairs": len(pairs), "scripts": len(scripts), "shards": nshards, "pair_shards": npairShards,
 		"streams": streams, "accepted": accepted, "refused": refused,
 		"with_edit": withEdit, "with_mood": withMood, "with_plus_group": withPlus,
 		"max_act_bytes": maxCols, "max_acts": maxActs,
